@@ -458,7 +458,7 @@ package gpbft
 //@ func (*instance).addCandidate
 //@   property C07
 //@   modifies auto
-//@   ensures[the_chain_is_a_candidate_afterwards_and_no_candidate_is_lost] has(i.candidates, res(Key, 1)) && argOf(Key, 1, 0) == c && forall(ECChainKey(k), old(has(i.candidates, k)) ==> has(i.candidates, k))
+//@   ensures[the_chain_is_a_candidate_afterwards_and_no_candidate_is_lost] has(i.candidates, res(Key, 1)) && argOf(Key, 1, 0) == c && forall(ECChainKey(k), old(has(i.candidates, k)) ==> has(i.candidates, k), trigger(has(i.candidates, k)))
 //@   ensures[reports_whether_it_was_new] result == !old(has(i.candidates, res(Key, 1)))
 
 // Every proper prefix of the chain (two tipsets and up, the chain itself included) becomes a candidate: the loop visits
@@ -497,8 +497,252 @@ package gpbft
 //@   property C07
 //@   modifies auto
 //@   maypanic
-//@   opaque FindStrongQuorumValueForLongestPrefixOf, beginPrepare, addCandidatePrefixes
 //@   at beginPrepare 1
 //@     before[prepare_value_is_the_longest_quorum_backed_prefix_of_the_input] old(i.current.Phase) == QUALITY_PHASE && i.proposal == res(FindStrongQuorumValueForLongestPrefixOf, 1) && argOf(FindStrongQuorumValueForLongestPrefixOf, 1, 0) == i.quality && argOf(FindStrongQuorumValueForLongestPrefixOf, 1, 1) == i.input && i.value == i.proposal && arg(1) == nil
 //@     before[its_prefixes_become_candidates] dominatedBy(addCandidatePrefixes, 1) && argOf(addCandidatePrefixes, 1, 1) == i.proposal
 //@     before[only_on_quorum_for_the_own_proposal_or_timeout] res(HasStrongQuorumFor, 1) || res(phaseTimeoutElapsed, 1)
+
+// Round states: one per round, created on first use with quorum tallies over the instance's power table. That the
+// tallies of rounds already in the map share the instance's (well-formed) table is the instance's data-structure
+// invariant, established here for new rounds and assumed for the stored ones.
+//@ pred tallyOK(q *quorumState) = q != nil && q.powerTable != nil && tblOK(q.powerTable) && lookupOK(q.powerTable)
+//@ func (*instance).getRound
+//@   property C07
+//@   modifies auto
+//@   maypanic
+//@   ensures[one_state_per_round] has(i.rounds, r) && i.rounds[r] == result && (old(has(i.rounds, r)) ==> result == old(i.rounds[r]))
+//@   ensures[other_rounds_are_untouched] forall(uint64(k), k != r ==> has(i.rounds, k) == old(has(i.rounds, k)) && i.rounds[k] == old(i.rounds[k]), trigger(i.rounds[k]))
+//@   assumes result != nil && result.prepared != nil && result.committed != nil && result.prepared.powerTable != nil && result.committed.powerTable != nil && tallyBounds(result.prepared) && tallyBounds(result.committed)
+//@   assumes result != nil && result.prepared != nil && result.committed != nil && result.converged != nil && tallyOK(result.prepared) && tallyOK(result.committed) && result.prepared != result.committed
+
+// PREPARE ends by committing the proposal exactly when a strong PREPARE quorum for it was seen or is proved by a
+// justification; bottom is committed only without either, and then only if the quorum has become impossible or the
+// timeout has passed with a strong quorum of senders heard.
+//@ func (*instance).tryPrepare
+//@   property C07
+//@   modifies auto
+//@   maypanic
+//@   opaque tryRebroadcast
+//@   at beginCommit 1
+//@     before[commits_the_proposal_when_its_prepare_quorum_is_seen_or_proved] (foundQuorum || foundJustification) == (i.value == i.proposal && (foundQuorum || foundJustification)) && (foundQuorum || foundJustification ==> i.value == i.proposal)
+//@     before[bottom_only_without_quorum_and_when_impossible_or_timed_out] !(foundQuorum || foundJustification) ==> i.value != nil && len(i.value.TipSets) == 0 && (quorumNotPossible || phaseComplete)
+//@     before[the_facts_are_about_the_proposal_in_the_current_round] foundQuorum == res(HasStrongQuorumFor, 1) && argOf(HasStrongQuorumFor, 1, 1) == res(Key, 1) && argOf(Key, 1, 0) == i.proposal && quorumNotPossible == !res(CouldReachStrongQuorumFor, 1) && argOf(CouldReachStrongQuorumFor, 1, 1) == res(Key, 1) && !argOf(CouldReachStrongQuorumFor, 1, 2)
+//@          && argOf(HasStrongQuorumFor, 1, 0) == res(getRound, 1).prepared && argOf(CouldReachStrongQuorumFor, 1, 0) == res(getRound, 1).prepared && argOf(getRound, 1, 1) == i.current.Round
+//@          && (phaseComplete ==> res(phaseTimeoutElapsed, 1) && res(ReceivedFromStrongQuorum, 1) && argOf(ReceivedFromStrongQuorum, 1, 0) == res(getRound, 1).prepared)
+//@     before[still_in_prepare] old(i.current.Phase) == PREPARE_PHASE
+
+// Each phase entry broadcasts exactly one message, for the current round and the phase entered, carrying the value of
+// that phase, and moves the phase forward.
+//@ func (*instance).beginPrepare
+//@   property C07
+//@   requires i.current.Phase == QUALITY_PHASE || i.current.Phase == CONVERGE_PHASE
+//@   modifies auto
+//@   maypanic
+//@   opaque broadcast, reportPhaseMetrics, resetRebroadcastParams, alarmAfterSynchrony
+//@   ensures[phase_moves_forward_to_prepare] i.current.Phase == PREPARE_PHASE && i.current.Round == old(i.current.Round) && i.current.ID == old(i.current.ID)
+//@   at broadcast 1
+//@     before[one_prepare_for_the_current_round_and_value] arg(1) == i.current.Round && arg(2) == PREPARE_PHASE && arg(3) == i.value && !arg(4) && arg(5) == justification
+//@   at return 0
+//@     before[exactly_one_broadcast] dominatedBy(broadcast, 1)
+
+//@ func (*instance).beginCommit
+//@   property C07
+//@   requires i.current.Phase == PREPARE_PHASE
+//@   modifies auto
+//@   maypanic
+//@   opaque broadcast, reportPhaseMetrics, resetRebroadcastParams, alarmAfterSynchrony
+//@   ensures[phase_moves_forward_to_commit] i.current.Phase == COMMIT_PHASE && i.current.Round == old(i.current.Round) && i.current.ID == old(i.current.ID)
+//@   at broadcast 1
+//@     before[one_commit_for_the_current_round_and_value] arg(1) == i.current.Round && arg(2) == COMMIT_PHASE && arg(3) == i.value && !arg(4)
+//@     before[bottom_goes_without_justification_a_value_with_proof_of_its_prepare_quorum] ite(res(IsZero, 1), arg(5) == nil, arg(5) != nil || dominatedBy(buildJustification, 1))
+//@   at buildJustification 1
+//@     before[justified_by_the_prepare_quorum_of_this_round_for_this_value] arg(1) == res(FindStrongQuorumFor, 1, 0) && res(FindStrongQuorumFor, 1, 1) && arg(2) == i.current.Round && arg(3) == PREPARE_PHASE && arg(4) == i.value && argOf(FindStrongQuorumFor, 1, 1) == res(Key, 1) && argOf(Key, 1, 0) == i.value
+//@   at return 0
+//@     before[exactly_one_broadcast] dominatedBy(broadcast, 1)
+
+//@ func (*instance).beginDecide
+//@   property C07
+//@   requires i.current.Phase != DECIDE_PHASE && i.current.Phase != TERMINATED_PHASE
+//@   modifies auto
+//@   maypanic
+//@   opaque broadcast, reportPhaseMetrics, resetRebroadcastParams
+//@   ensures[phase_moves_forward_to_decide] i.current.Phase == DECIDE_PHASE && i.current.Round == old(i.current.Round) && i.current.ID == old(i.current.ID)
+//@   at broadcast 1
+//@     before[one_decide_with_round_zero_for_the_value_with_its_commit_quorum] arg(1) == 0 && arg(2) == DECIDE_PHASE && arg(3) == i.value && !arg(4) && arg(5) == res(buildJustification, 1)
+//@          && argOf(buildJustification, 1, 1) == res(FindStrongQuorumFor, 1, 0) && res(FindStrongQuorumFor, 1, 1) && argOf(buildJustification, 1, 2) == round && argOf(buildJustification, 1, 3) == COMMIT_PHASE && argOf(buildJustification, 1, 4) == i.value
+//@          && argOf(FindStrongQuorumFor, 1, 1) == res(Key, 1) && argOf(Key, 1, 0) == i.value && argOf(FindStrongQuorumFor, 1, 0) == res(getRound, 1).committed && argOf(getRound, 1, 1) == round
+//@   at return 0
+//@     before[exactly_one_broadcast] dominatedBy(broadcast, 1)
+
+//@ func (*instance).skipToDecide
+//@   property C07
+//@   requires i.current.Phase != DECIDE_PHASE && i.current.Phase != TERMINATED_PHASE
+//@   modifies auto
+//@   maypanic
+//@   opaque broadcast, reportPhaseMetrics, resetRebroadcastParams
+//@   ensures[phase_moves_forward_to_decide] i.current.Phase == DECIDE_PHASE && i.current.Round == old(i.current.Round) && i.current.ID == old(i.current.ID) && i.value == value && i.proposal == value
+//@   at broadcast 1
+//@     before[one_decide_with_round_zero_for_the_received_value_and_its_proof] arg(1) == 0 && arg(2) == DECIDE_PHASE && arg(3) == value && !arg(4) && arg(5) == justification
+//@   at return 0
+//@     before[exactly_one_broadcast] dominatedBy(broadcast, 1)
+
+//@ func (*instance).beginConverge
+//@   property C07
+//@   modifies auto
+//@   maypanic
+//@   opaque broadcast, reportPhaseMetrics, resetRebroadcastParams, alarmAfterSynchrony, SetSelfValue
+//@   ensures[phase_is_converge_of_the_same_round] i.current.Phase == CONVERGE_PHASE && i.current.Round == old(i.current.Round) && i.current.ID == old(i.current.ID)
+//@   at broadcast 1
+//@     before[one_converge_for_the_current_round_and_proposal_with_ticket_and_previous_round_proof] arg(1) == i.current.Round && arg(2) == CONVERGE_PHASE && arg(3) == i.proposal && arg(4) && arg(5) == justification && (i.current.Round >= 1 ==> justification.Vote.Round == i.current.Round - 1)
+//@   at return 0
+//@     before[exactly_one_broadcast] dominatedBy(broadcast, 1)
+
+//@ func (*instance).beginQuality
+//@   property C07
+//@   modifies auto
+//@   maypanic
+//@   opaque broadcast, reportPhaseMetrics, resetRebroadcastParams, alarmAfterSynchronyWithMulti
+//@   ensures[only_from_the_initial_phase] result == nil ==> old(i.current.Phase) == INITIAL_PHASE && i.current.Phase == QUALITY_PHASE && i.current.Round == old(i.current.Round)
+//@   ensures[otherwise_nothing_moves] result != nil ==> i.current == old(i.current)
+//@   at broadcast 1
+//@     before[one_quality_for_the_current_round_and_proposal] arg(1) == i.current.Round && arg(2) == QUALITY_PHASE && arg(3) == i.proposal && !arg(4) && arg(5) == nil
+//@   at return 0
+//@     before[a_successful_entry_broadcast_exactly_once] arg(0) == nil ==> dominatedBy(broadcast, 1)
+
+// A new round is entered by adding one to the round and starting CONVERGE with proof from the round just left.
+//@ func (*instance).beginNextRound
+//@   property C07
+//@   modifies auto
+//@   maypanic
+//@   opaque log
+//@   at beginConverge 1
+//@     before[round_advances_by_one] (old(i.current.Round) < 18446744073709551615 ==> i.current.Round == old(i.current.Round) + 1) && i.current.ID == old(i.current.ID)
+//@   at buildJustification 1
+//@     before[bottom_quorum_of_the_round_just_left] (i.current.Round >= 1 ==> arg(2) == i.current.Round - 1) && arg(3) == COMMIT_PHASE && arg(4) == nil && arg(1) == res(FindStrongQuorumFor, 1, 0) && res(FindStrongQuorumFor, 1, 1)
+//@   at return 0
+//@     before[converge_is_begun] dominatedBy(beginConverge, 1)
+
+//@ func (*instance).skipToRound
+//@   property C07
+//@   requires round > i.current.Round
+//@   modifies auto
+//@   maypanic
+//@   opaque log
+//@   at beginConverge 1
+//@     before[round_moves_forward_to_the_given_round] i.current.Round == round && round > old(i.current.Round) && i.current.ID == old(i.current.ID) && arg(1) == justification
+//@     before[sways_to_the_given_chain_on_a_prepare_justification] old(justification.Vote.Phase) == PREPARE_PHASE ==> i.proposal == chain
+//@     before[keeps_its_proposal_otherwise] old(justification.Vote.Phase) != PREPARE_PHASE ==> i.proposal == old(i.proposal)
+
+// CONVERGE ends only after its timeout, with the best-ticket value among the admissible ones of this round (a
+// candidate, or PREPARE-justified and possibly decided by someone in the previous round given a third of adversarial
+// power); the winner becomes proposal and value, a non-candidate winner becomes a candidate, and PREPARE starts with
+// the winner's justification.
+//@ func (*instance).tryConverge
+//@   property C07
+//@   modifies auto
+//@   maypanic
+//@   opaque tryRebroadcast, log, FindBestTicketProposal
+//@   at beginPrepare 1
+//@     before[only_after_the_converge_timeout_in_converge] old(i.current.Phase) == CONVERGE_PHASE && res(phaseTimeoutElapsed, 1)
+//@     before[winner_is_the_best_ticket_of_this_round_and_is_valid] winner == res(FindBestTicketProposal, 1) && argOf(FindBestTicketProposal, 1, 0) == res(getRound, 2).converged && argOf(getRound, 2, 1) == i.current.Round && res(IsValid, 1)
+//@     before[winner_becomes_proposal_and_value_and_a_candidate] i.proposal == winner.Chain && i.value == winner.Chain && arg(1) == winner.Justification
+//@   at addCandidate 1
+//@     before[only_a_non_candidate_winner_is_added] !res(isCandidate, 1) && arg(1) == winner.Chain && argOf(isCandidate, 1, 1) == winner.Chain
+
+// The admissibility filter of CONVERGE values.
+//@ func (*instance).tryConverge$1
+//@   property C07
+//@   requires commitRoundState != nil && commitRoundState.powerTable != nil && tallyBounds(commitRoundState)
+//@   modifies auto
+//@   maypanic
+//@   at return 1
+//@     before[a_candidate_is_admissible] res(isCandidate, 1) && argOf(isCandidate, 1, 1) == cv.Chain && arg(0)
+//@   at return 2
+//@     before[a_non_candidate_without_prepare_justification_is_not] !res(isCandidate, 1) && cv.Justification.Vote.Phase != PREPARE_PHASE && !arg(0)
+//@   at return 3
+//@     before[otherwise_only_if_it_could_have_been_decided_last_round_with_adversary_slack] !res(isCandidate, 1) && cv.Justification.Vote.Phase == PREPARE_PHASE && arg(0) == res(CouldReachStrongQuorumFor, 1) && argOf(CouldReachStrongQuorumFor, 1, 2) && argOf(CouldReachStrongQuorumFor, 1, 1) == res(Key, 1) && argOf(Key, 1, 0) == cv.Chain && argOf(CouldReachStrongQuorumFor, 1, 0) == commitRoundState
+
+// COMMIT: decide on a strong quorum for a value (in the round the quorum is in); otherwise, only in the current round
+// and COMMIT phase: next round on a strong quorum or proof for bottom; after the timeout with a strong quorum of
+// senders, sway to the committed value seen and go to the next round.
+//@ func (*instance).tryCommit
+//@   property C07
+//@   requires i.current.Phase != DECIDE_PHASE && i.current.Phase != TERMINATED_PHASE
+//@   modifies auto
+//@   maypanic
+//@   opaque tryRebroadcast, log, FindStrongQuorumValue, ListAllValues
+//@   at beginDecide 1
+//@     before[decides_only_a_non_bottom_value_with_a_strong_commit_quorum_in_that_round] res(FindStrongQuorumValue, 1, 1) && !res(IsZero, 1) && argOf(IsZero, 1, 0) == res(FindStrongQuorumValue, 1, 0) && i.value == res(FindStrongQuorumValue, 1, 0) && arg(1) == round && argOf(FindStrongQuorumValue, 1, 0) == res(getRound, 1).committed && argOf(getRound, 1, 1) == round
+//@   at beginNextRound 1
+//@     before[next_round_on_bottom_quorum_or_proof_only_in_the_current_commit_phase] i.current.Round == round && i.current.Phase == COMMIT_PHASE && (res(FindStrongQuorumValue, 1, 1) || foundJustificationForBottom)
+//@   at beginNextRound 2
+//@     before[next_round_after_timeout_with_a_strong_quorum_of_senders] i.current.Round == round && i.current.Phase == COMMIT_PHASE && res(phaseTimeoutElapsed, 1) && res(ReceivedFromStrongQuorum, 1) && argOf(ReceivedFromStrongQuorum, 1, 0) == res(getRound, 1).committed
+
+// A message reaches the tallies only if it is for this instance, carries this instance's supplemental data and a value
+// that is bottom or starts at this instance's base, and the instance has not terminated; each step's vote goes to the
+// tally of its own round and step.
+//@ func (*instance).receiveOne
+//@   property C07 C02
+//@   modifies auto
+//@   maypanic
+//@   opaque tryCurrentPhase, updateCandidatesFromQuality, ReceiveEachPrefix, Receive, ReceiveJustification, isSpammable, HasBase
+//@   at getRound 1
+//@     before[only_messages_of_this_instance_with_its_supplemental_data_and_base_touch_state] msg.Vote.Instance == i.current.ID && res(Eq, 1) && argOf(Eq, 1, 0) == &msg.Vote.SupplementalData && argOf(Eq, 1, 1) == i.supplementalData && (res(IsZero, 1) || res(HasBase, 1)) && argOf(IsZero, 1, 0) == msg.Vote.Value && argOf(HasBase, 1, 0) == msg.Vote.Value && i.current.Phase != TERMINATED_PHASE && arg(1) == msg.Vote.Round
+//@     before[stale_converge_and_prepare_are_dropped] !(msg.Vote.Round < i.current.Round && (msg.Vote.Phase == CONVERGE_PHASE || msg.Vote.Phase == PREPARE_PHASE))
+//@   at ReceiveEachPrefix 1
+//@     before[quality_votes_go_to_the_quality_tally] msg.Vote.Phase == QUALITY_PHASE && arg(0) == i.quality && arg(1) == msg.Sender && arg(2) == msg.Vote.Value && dominatedBy(getRound, 1)
+//@   at Receive 1
+//@     before[converge_votes_go_to_their_rounds_converge_state] msg.Vote.Phase == CONVERGE_PHASE && arg(0) == res(getRound, 1).converged && arg(1) == msg.Sender && arg(3) == msg.Vote.Value && arg(4) == msg.Ticket && arg(5) == msg.Justification
+//@   at Receive 2
+//@     before[prepare_votes_go_to_their_rounds_prepare_tally] msg.Vote.Phase == PREPARE_PHASE && arg(0) == res(getRound, 1).prepared && arg(1) == msg.Sender && arg(2) == msg.Vote.Value && arg(3) == msg.Signature
+//@   at Receive 3
+//@     before[commit_votes_go_to_their_rounds_commit_tally] msg.Vote.Phase == COMMIT_PHASE && arg(0) == res(getRound, 1).committed && arg(1) == msg.Sender && arg(2) == msg.Vote.Value && arg(3) == msg.Signature
+//@   at Receive 4
+//@     before[decide_votes_go_to_the_decide_tally] msg.Vote.Phase == DECIDE_PHASE && arg(0) == i.decision && arg(1) == msg.Sender && arg(2) == msg.Vote.Value && arg(3) == msg.Signature
+//@   at skipToDecide 1
+//@     before[a_decide_vote_moves_a_participant_that_has_not_decided_to_decide_with_that_value_and_proof] msg.Vote.Phase == DECIDE_PHASE && arg(1) == msg.Vote.Value && arg(2) == msg.Justification
+//@   at tryCommit 1
+//@     before[late_commits_are_tried_in_their_own_round] msg.Vote.Phase == COMMIT_PHASE && arg(1) == msg.Vote.Round
+
+//@ func (*instance).tryCurrentPhase
+//@   property C07
+//@   modifies auto
+//@   maypanic
+//@   opaque log, tryQuality, tryConverge, tryPrepare, tryDecide
+//@   at tryCommit 1
+//@     before[commit_is_tried_for_the_current_round_in_commit_phase] i.current.Phase == COMMIT_PHASE && arg(1) == i.current.Round
+
+// One vote per sender and tally: a second message from the same sender adds nothing.
+//@ func (*quorumState).receiveSender
+//@   property C07 C01
+//@   requires q.powerTable != nil
+//@   modifies auto
+//@   maypanic
+//@   opaque Get, Record
+//@   ensures[first_time_only] result1 == !old(has(q.senders, sender)) && has(q.senders, sender)
+//@   ensures[a_repeated_sender_changes_nothing] !result1 ==> result0 == 0 && q.sendersTotalPower == old(q.sendersTotalPower)
+//@   ensures[a_new_sender_adds_its_scaled_power_once] result1 ==> result0 == res(Get, 1, 0) && argOf(Get, 1, 1) == sender && argOf(Get, 1, 0) == q.powerTable
+//@   ensures[other_senders_are_kept] forall(ActorID(a), old(has(q.senders, a)) ==> has(q.senders, a), trigger(has(q.senders, a)))
+//@   ensures[the_table_is_not_touched] q.powerTable == old(q.powerTable) && q.powerTable.ScaledTotal == old(q.powerTable.ScaledTotal)
+
+//@ pred totalOK(q *quorumState) = q.powerTable != nil && q.powerTable.ScaledTotal >= 0 && q.powerTable.ScaledTotal <= 65535
+//@ func (*quorumState).Receive
+//@   property C07 C01
+//@   requires totalOK(q)
+//@   modifies auto
+//@   maypanic
+//@   at receiveInner 1
+//@     before[a_vote_is_counted_only_for_a_first_time_sender_with_its_table_power] res(receiveSender, 1, 1) && argOf(receiveSender, 1, 1) == sender && arg(1) == sender && arg(2) == value && arg(3) == res(receiveSender, 1, 0) && arg(4) == signature
+//@   ensures[a_repeated_sender_is_ignored] !res(receiveSender, 1, 1) ==> q.chainSupport == old(q.chainSupport) && forall(ECChainKey(k), has(q.chainSupport, k) == old(has(q.chainSupport, k)) && q.chainSupport[k] == old(q.chainSupport[k]), trigger(q.chainSupport[k]))
+
+// Counting a vote: the value's support grows by exactly the sender's power and the quorum flag is recomputed from it.
+//@ func (*quorumState).receiveInner
+//@   property C07 C01
+//@   requires totalOK(q)
+//@   modifies auto
+//@   maypanic
+//@   at IsStrongQuorum 1
+//@     before[quorum_flag_is_judged_on_the_updated_support_against_the_total] arg(0) == candidate.power && arg(1) == q.powerTable.ScaledTotal && argOf(Key, 1, 0) == value
+//@     before[support_grows_by_the_senders_power] old(has(q.chainSupport, res(Key, 1))) && 0 <= power && power <= 65535 && abs(old(q.chainSupport[res(Key, 1)].power)) <= 4611686018427387904 ==> candidate.power == old(q.chainSupport[res(Key, 1)].power) + power
+//@     before[a_new_value_starts_with_the_senders_power] !old(has(q.chainSupport, res(Key, 1))) ==> candidate.power == power
+//@   ensures[support_is_stored_under_the_values_key] has(q.chainSupport, res(Key, 1)) && q.chainSupport[res(Key, 1)].hasStrongQuorum == res(IsStrongQuorum, 1)
